@@ -160,18 +160,62 @@ def assign_profiles(rng, a, negative_peak=False, with_none=True, const=None):
                 b.p[AVG_P] = None
 
 
+class Bad:
+    """a value read from the real code that is not of the kind the parameter holds (wrong type / shape)"""
+
+    def __init__(self, v):
+        self.r = f"{type(v).__name__}: {repr(v)[:60]}"
+
+    def __repr__(self):
+        return f"<wrong-kind {self.r}>"
+
+
+def scal(v):
+    if v is None:
+        return None
+    if isinstance(v, (bool, str)) or not isinstance(v, (int, float, np.integer, np.floating)):
+        return Bad(v)
+    return float(v)
+
+
+def vec3(v):
+    if v is None:
+        return None
+    try:
+        if not isinstance(v, (str, bytes)) and hasattr(v, "__len__") and len(v) == 3:
+            return [float(x) for x in v]
+    except Exception:  # noqa
+        pass
+    return Bad(v)
+
+
 def snap(a, nucs):
-    """plain-data snapshot of an assembly: per block zb, zt, h, params, densities"""
+    """plain-data snapshot of an assembly: per block zb, zt, h, params, densities (never raises on odd values)"""
     out = []
     for b in a:
-        arr = b.p[INT_ARR]
-        out.append({
-            "zb": float(b.p.zbottom), "zt": float(b.p.ztop), "h": float(b.getHeight()),
-            INT_P: b.p[INT_P], INT_G: b.p[INT_G], AVG_P: b.p[AVG_P], AVG_C: b.p[AVG_C], PEAK_P: b.p[PEAK_P],
-            INT_ARR: None if arr is None else [float(x) for x in arr],
-            "nd": {n: float(b.getNumberDensity(n)) for n in nucs},
-        })
+        d = {"zb": float(b.p.zbottom), "zt": float(b.p.ztop), "h": float(b.getHeight()),
+             "nd": {n: float(b.getNumberDensity(n)) for n in nucs}}
+        for name in (INT_P, INT_G, AVG_P, AVG_C, PEAK_P):
+            d[name] = scal(b.p[name])
+        d[INT_ARR] = vec3(b.p[INT_ARR])
+        out.append(d)
     return out
+
+
+def kinds_ok(ctx, case, blocks, what="destination"):
+    """every mapped parameter still holds a value of its kind (scalar stays a number, mgFlux stays a 3-vector)"""
+    ok = True
+    for ib, b in enumerate(blocks):
+        for name in KIND:
+            if isinstance(b[name], Bad):
+                ok = False
+                ctx.count("mapped parameter of the wrong kind")
+                if ctx.hist["mapped parameter of the wrong kind"] > 10:
+                    continue
+                ctx.fail("remap-parameter-kind-preserved", "each mapped parameter receives a value of its own kind "
+                         "(a scalar parameter a number, an array parameter its vector)",
+                         dict(case, block=ib, param=name, assembly_role=what), observed=repr(b[name]))
+    return ok
 
 
 def arr_total(blocks):
@@ -306,95 +350,106 @@ def run_assemblies(ctx):
                         b.p[name] = 0.0
                 if ctx.rng.random() < 0.5:
                     b.p[INT_ARR] = np.zeros(3)
-        for step in range(chain):
-            srcmesh = [0.0] + [float(b.p.ztop) for b in src]
-            mk = ctx.rng.choice(["identical", "finer", "coarser", "shifted", "random", "finer", "shifted", "tiny",
-                                 "nearsame", "nearsame"])
-            mesh = gen_mesh(ctx.rng, H, srcmesh, mk)
-            case = {"assembly": a0.getType(), "source_mesh": srcmesh, "target_mesh": mesh, "mode": mode, "step": step}
-            S = snap(src, nucs)
-            try:
-                new = UM.makeAssemWithUniformMesh(src, mesh[1:], paramMapper=pm, mapNumberDensities=True)
-            except Exception as e:  # noqa
-                ctx.fail("remap-raises-on-valid-mesh", "re-meshing onto a mesh spanning the same height succeeds", case,
-                         observed=repr(e)[:300])
-                break
-            D = snap(new, nucs)
-            n_done += 1
-            ctx.count(f"mesh kind {mk}")
-            ctx.count(f"profile mode {mode}")
-            if len(D) != len(mesh) - 1 or D[0]["zb"] != 0.0 or not all(fclose(d["zt"], z, 1e-13) for d, z in zip(D, mesh[1:])):
-                ctx.fail("remap-mesh-applied", "the new assembly has the requested mesh", case, observed=[d["zt"] for d in D])
-            oracle_mapping(ctx, case, S, D, 1e-11, has_none, neg_peak)
-            if const is not None:
-                for d in D:
-                    if not fclose(d[AVG_C], const, 1e-12):
-                        ctx.fail("remap-constant-stays-constant", "a constant profile stays constant", case,
-                                 observed=d[AVG_C], expected=const)
-            # partition clause + correspondence of getBlocksBetweenElevations
-            wins = [(d["zb"], d["zt"]) for d in D]
-            for _ in range(2):
-                x, y = sorted(ctx.rng.sample(range(0, int(H * 8) + 1), 2))
-                wins.append((x / 8.0, y / 8.0))
-            got = oracle_between(ctx, case, src, S, wins)
-            zb, zt, hh = geom(S)
-            dzb, dzt, dh = geom(D)
-            for (zl, zu), g in zip(wins, got):
-                if g is not None:
-                    req.append(f"between {zb} {zt} {hh} {rat(zl)} {rat(zu)}")
-                    chk.append((dict(case, zl=zl, zu=zu), "between", g))
-            for n in nucs:
-                req.append(f"remapnd {zb} {zt} {hh} {ratlist([s['nd'][n] for s in S])} {dzb} {dzt} {dh}")
-                chk.append((dict(case, nuclide=n), "vals", [d["nd"][n] for d in D]))
-            for name in (INT_P, INT_G, AVG_P, AVG_C, PEAK_P):
-                req.append(f"remap {KIND[name]} {zb} {zt} {hh} {optlist([s[name] for s in S])} {dzb} {dzt} {dh}")
-                # destination blocks are homogenized copies: "unchanged" cannot be observed reliably -> None = skip
-                chk.append((dict(case, param=name), "optvals", [d[name] for d in D]))
-            for j in range(3):
-                req.append(f"remap int {zb} {zt} {hh} {optlist([None if s[INT_ARR] is None else s[INT_ARR][j] for s in S])} "
-                           f"{dzb} {dzt} {dh}")
-                chk.append((dict(case, param=INT_ARR, index=j), "optvals",
-                            [None if d[INT_ARR] is None or len(d[INT_ARR]) != 3 else d[INT_ARR][j] for d in D]))
-            # getBlockAtElevation
-            blocks = list(src)
-            for _ in range(3):
-                e = ctx.rng.choice([ctx.rng.randint(0, int(H * 8)) / 8.0, ctx.rng.choice(srcmesh), 0.0, H,
-                                    ctx.rng.choice(srcmesh) + 2.0 ** -ctx.rng.randint(10, 30)])
-                bb = src.getBlockAtElevation(e)
-                ix = None if bb is None else blocks.index(bb)
-                req.append(f"atelev {hh} {rat(e)}")
-                chk.append((dict(case, elevation=e), "atelev", ix))
-                if (ix is None and 0 < e <= H) or (ix is not None and not (S[ix]["zb"] < e <= S[ix]["zt"] * (1 + 2e-10))):
-                    ctx.fail("block-at-elevation", "the block at an elevation contains it (bottom exclusive, top "
-                             "inclusive); none outside (0, H]", dict(case, elevation=e), observed=ix)
-            # map the parameters back onto the real (heterogeneous) source assembly: totals restored
-            if step == chain - 1 and not has_none:
+        try:
+            for step in range(chain):
+                srcmesh = [0.0] + [float(b.p.ztop) for b in src]
+                mk = ctx.rng.choice(["identical", "finer", "coarser", "shifted", "random", "finer", "shifted", "tiny",
+                                     "nearsame", "nearsame"])
+                mesh = gen_mesh(ctx.rng, H, srcmesh, mk)
+                case = {"assembly": a0.getType(), "source_mesh": srcmesh, "target_mesh": mesh, "mode": mode, "step": step}
+                S = snap(src, nucs)
                 try:
-                    UM.setAssemblyStateFromOverlaps(new, src, pm, mapNumberDensities=False)
-                    back = UM.makeAssemWithUniformMesh(new, srcmesh[1:], paramMapper=pm, mapNumberDensities=True)
+                    new = UM.makeAssemWithUniformMesh(src, mesh[1:], paramMapper=pm, mapNumberDensities=True)
                 except Exception as e:  # noqa
-                    ctx.fail("remap-back-raises", "mapping a state back onto the original mesh succeeds", case,
+                    ctx.fail("remap-raises-on-valid-mesh", "re-meshing onto a mesh spanning the same height succeeds", case,
                              observed=repr(e)[:300])
                     break
-                B = snap(src, nucs)
-                p0, p2 = sum(s[INT_P] for s in S), sum(s[INT_P] for s in B)
-                if not fclose(p0, p2, 1e-11):
-                    ctx.fail("roundtrip-integrated-total", "mapping back restores the integrated total", case,
-                             observed=p2, expected=p0)
-                req.append(f"remap int {dzb} {dzt} {dh} {optlist([d[INT_P] for d in D])} {zb} {zt} {hh}")
-                chk.append((dict(case, param=INT_P, direction="back"), "optvals", [s[INT_P] for s in B]))
-                # and the densities back onto a uniform assembly with the source's mesh
-                Bk = snap(back, nucs)
+                D = snap(new, nucs)
+                n_done += 1
+                if not (kinds_ok(ctx, case, S, "source") and kinds_ok(ctx, case, D)):
+                    break
+                ctx.count(f"mesh kind {mk}")
+                ctx.count(f"profile mode {mode}")
+                if len(D) != len(mesh) - 1 or D[0]["zb"] != 0.0 or not all(fclose(d["zt"], z, 1e-13) for d, z in zip(D, mesh[1:])):
+                    ctx.fail("remap-mesh-applied", "the new assembly has the requested mesh", case, observed=[d["zt"] for d in D])
+                oracle_mapping(ctx, case, S, D, 1e-11, has_none, neg_peak)
+                if const is not None:
+                    for d in D:
+                        if not fclose(d[AVG_C], const, 1e-12):
+                            ctx.fail("remap-constant-stays-constant", "a constant profile stays constant", case,
+                                     observed=d[AVG_C], expected=const)
+                # partition clause + correspondence of getBlocksBetweenElevations
+                wins = [(d["zb"], d["zt"]) for d in D]
+                for _ in range(2):
+                    x, y = sorted(ctx.rng.sample(range(0, int(H * 8) + 1), 2))
+                    wins.append((x / 8.0, y / 8.0))
+                got = oracle_between(ctx, case, src, S, wins)
+                zb, zt, hh = geom(S)
+                dzb, dzt, dh = geom(D)
+                for (zl, zu), g in zip(wins, got):
+                    if g is not None:
+                        req.append(f"between {zb} {zt} {hh} {rat(zl)} {rat(zu)}")
+                        chk.append((dict(case, zl=zl, zu=zu), "between", g))
                 for n in nucs:
-                    a0_, a2 = sum(s["nd"][n] * s["h"] for s in S), sum(s["nd"][n] * s["h"] for s in Bk)
-                    if not fclose(a0_, a2, 1e-11):
-                        ctx.fail("roundtrip-atoms", "mapping there and back restores the atoms of every nuclide", case,
-                                 observed=a2, expected=a0_)
-            ctx.case(("remap", a0.getType(), tuple(srcmesh), tuple(mesh), mode),
-                     nontrivial=(mesh != srcmesh), sample={"case": case, "dest_power": [d[INT_P] for d in D]})
-            src = new
-            if n_done >= npairs:
-                break
+                    req.append(f"remapnd {zb} {zt} {hh} {ratlist([s['nd'][n] for s in S])} {dzb} {dzt} {dh}")
+                    chk.append((dict(case, nuclide=n), "vals", [d["nd"][n] for d in D]))
+                for name in (INT_P, INT_G, AVG_P, AVG_C, PEAK_P):
+                    req.append(f"remap {KIND[name]} {zb} {zt} {hh} {optlist([s[name] for s in S])} {dzb} {dzt} {dh}")
+                    # destination blocks are homogenized copies: "unchanged" cannot be observed reliably -> None = skip
+                    chk.append((dict(case, param=name), "optvals", [d[name] for d in D]))
+                for j in range(3):
+                    req.append(f"remap int {zb} {zt} {hh} {optlist([None if s[INT_ARR] is None else s[INT_ARR][j] for s in S])} "
+                               f"{dzb} {dzt} {dh}")
+                    chk.append((dict(case, param=INT_ARR, index=j), "optvals",
+                                [None if d[INT_ARR] is None or len(d[INT_ARR]) != 3 else d[INT_ARR][j] for d in D]))
+                # getBlockAtElevation
+                blocks = list(src)
+                for _ in range(3):
+                    e = ctx.rng.choice([ctx.rng.randint(0, int(H * 8)) / 8.0, ctx.rng.choice(srcmesh), 0.0, H,
+                                        ctx.rng.choice(srcmesh) + 2.0 ** -ctx.rng.randint(10, 30)])
+                    bb = src.getBlockAtElevation(e)
+                    ix = None if bb is None else blocks.index(bb)
+                    req.append(f"atelev {hh} {rat(e)}")
+                    chk.append((dict(case, elevation=e), "atelev", ix))
+                    if (ix is None and 0 < e <= H) or (ix is not None and not (S[ix]["zb"] < e <= S[ix]["zt"] * (1 + 2e-10))):
+                        ctx.fail("block-at-elevation", "the block at an elevation contains it (bottom exclusive, top "
+                                 "inclusive); none outside (0, H]", dict(case, elevation=e), observed=ix)
+                # map the parameters back onto the real (heterogeneous) source assembly: totals restored
+                if step == chain - 1 and not has_none:
+                    try:
+                        UM.setAssemblyStateFromOverlaps(new, src, pm, mapNumberDensities=False)
+                        back = UM.makeAssemWithUniformMesh(new, srcmesh[1:], paramMapper=pm, mapNumberDensities=True)
+                    except Exception as e:  # noqa
+                        ctx.fail("remap-back-raises", "mapping a state back onto the original mesh succeeds", case,
+                                 observed=repr(e)[:300])
+                        break
+                    B = snap(src, nucs)
+                    Bk = snap(back, nucs)
+                    if not (kinds_ok(ctx, case, B, "mapped back") and kinds_ok(ctx, case, Bk, "mapped back")):
+                        break
+                    p0, p2 = sum(s[INT_P] for s in S), sum(s[INT_P] for s in B)
+                    if not fclose(p0, p2, 1e-11):
+                        ctx.fail("roundtrip-integrated-total", "mapping back restores the integrated total", case,
+                                 observed=p2, expected=p0)
+                    req.append(f"remap int {dzb} {dzt} {dh} {optlist([d[INT_P] for d in D])} {zb} {zt} {hh}")
+                    chk.append((dict(case, param=INT_P, direction="back"), "optvals", [s[INT_P] for s in B]))
+                    # and the densities back onto a uniform assembly with the source's mesh
+                    for n in nucs:
+                        a0_, a2 = sum(s["nd"][n] * s["h"] for s in S), sum(s["nd"][n] * s["h"] for s in Bk)
+                        if not fclose(a0_, a2, 1e-11):
+                            ctx.fail("roundtrip-atoms", "mapping there and back restores the atoms of every nuclide", case,
+                                     observed=a2, expected=a0_)
+                ctx.case(("remap", a0.getType(), tuple(srcmesh), tuple(mesh), mode),
+                         nontrivial=(mesh != srcmesh), sample={"case": case, "dest_power": [d[INT_P] for d in D]})
+                src = new
+                if n_done >= npairs:
+                    break
+        except common.Infra:
+            raise
+        except Exception as e:  # noqa  (a value read from the real code could not be evaluated)
+            del req[len(chk):]
+            ctx.fail("remap-state-not-evaluable", "the mapped state can be read back and compared (numbers where "
+                     "numbers are expected)", {"assembly": a0.getType(), "mode": mode}, observed=repr(e)[:300])
     model = lean_run("Mesh", req)
     ndis = 0
     for (case, kind, impl), line, rq in zip(chk, model, req):
@@ -451,45 +506,54 @@ def run_repeated(ctx):
         pool = [gen_mesh(ctx.rng, H, srcmesh0, k) for k in ("tiny", "shifted", "finer", "tiny", "coarser")] + [srcmesh0]
         src = a0
         nsteps = ctx.rng.randint(10, 30)
-        for step in range(nsteps):
-            mesh = ctx.rng.choice(pool) if step < nsteps - 1 else srcmesh0
-            S = snap(src, nucs)
-            case = {"assembly": a0.getType(), "mode": "repeated", "step": step, "source_mesh": [0.0] + [b["zt"] for b in S],
-                    "target_mesh": mesh}
-            try:
-                new = UM.makeAssemWithUniformMesh(src, mesh[1:], paramMapper=pm, mapNumberDensities=True)
-            except Exception as e:  # noqa
-                ctx.fail("remap-raises-on-valid-mesh", "re-meshing onto a mesh spanning the same height succeeds", case,
-                         observed=repr(e)[:300])
-                break
-            D = snap(new, nucs)
-            for n in nucs:
-                a1 = sum(b["nd"][n] * b["h"] for b in D)
-                if not fclose(atoms0[n], a1, 1e-9):
-                    ctx.fail("repeated-remap-atoms-drift", f"after {step + 1} successive re-meshings the atoms of {n} still "
-                             "equal the original", case, observed=a1, expected=atoms0[n])
-            p1 = sum(b[INT_P] for b in D)
-            f1 = arr_total(D)
-            if not fclose(p0, p1, 1e-9) or f1 is None or not all(fclose(x, y, 1e-9) for x, y in zip(f0, f1)):
-                ctx.fail("repeated-remap-integrated-drift", f"after {step + 1} successive re-meshings the integrated totals "
-                         "still equal the original", case, observed=[p1, None if f1 is None else list(f1)],
-                         expected=[p0, list(f0)])
-            for d in D:
-                if not fclose(d[AVG_C], const, 1e-11):
-                    ctx.fail("remap-constant-stays-constant", "a constant profile stays constant", case,
-                             observed=d[AVG_C], expected=const)
-            if len(D) != len(mesh) - 1 or not all(fclose(d["zt"], z, 1e-13) for d, z in zip(D, mesh[1:])):
-                ctx.fail("remap-mesh-applied", "the new assembly has the requested mesh", case, observed=[d["zt"] for d in D])
-            oracle_mapping(ctx, case, S, D, 1e-11, False, False)
-            zb, zt, hh = geom(S)
-            dzb, dzt, dh = geom(D)
-            n = nucs[step % len(nucs)]
-            req.append(f"remapnd {zb} {zt} {hh} {ratlist([b['nd'][n] for b in S])} {dzb} {dzt} {dh}")
-            chk.append((dict(case, nuclide=n), [d["nd"][n] for d in D]))
-            req.append(f"remap int {zb} {zt} {hh} {optlist([b[INT_P] for b in S])} {dzb} {dzt} {dh}")
-            chk.append((dict(case, param=INT_P), [d[INT_P] for d in D]))
-            ctx.case(("repeated", a0.getType(), tuple(mesh), step, _), nontrivial=True)
-            src = new
+        try:
+            for step in range(nsteps):
+                mesh = ctx.rng.choice(pool) if step < nsteps - 1 else srcmesh0
+                S = snap(src, nucs)
+                case = {"assembly": a0.getType(), "mode": "repeated", "step": step, "source_mesh": [0.0] + [b["zt"] for b in S],
+                        "target_mesh": mesh}
+                try:
+                    new = UM.makeAssemWithUniformMesh(src, mesh[1:], paramMapper=pm, mapNumberDensities=True)
+                except Exception as e:  # noqa
+                    ctx.fail("remap-raises-on-valid-mesh", "re-meshing onto a mesh spanning the same height succeeds", case,
+                             observed=repr(e)[:300])
+                    break
+                D = snap(new, nucs)
+                if not kinds_ok(ctx, case, D):
+                    break
+                for n in nucs:
+                    a1 = sum(b["nd"][n] * b["h"] for b in D)
+                    if not fclose(atoms0[n], a1, 1e-9):
+                        ctx.fail("repeated-remap-atoms-drift", f"after {step + 1} successive re-meshings the atoms of {n} still "
+                                 "equal the original", case, observed=a1, expected=atoms0[n])
+                p1 = sum(b[INT_P] for b in D)
+                f1 = arr_total(D)
+                if not fclose(p0, p1, 1e-9) or f1 is None or not all(fclose(x, y, 1e-9) for x, y in zip(f0, f1)):
+                    ctx.fail("repeated-remap-integrated-drift", f"after {step + 1} successive re-meshings the integrated totals "
+                             "still equal the original", case, observed=[p1, None if f1 is None else list(f1)],
+                             expected=[p0, list(f0)])
+                for d in D:
+                    if not fclose(d[AVG_C], const, 1e-11):
+                        ctx.fail("remap-constant-stays-constant", "a constant profile stays constant", case,
+                                 observed=d[AVG_C], expected=const)
+                if len(D) != len(mesh) - 1 or not all(fclose(d["zt"], z, 1e-13) for d, z in zip(D, mesh[1:])):
+                    ctx.fail("remap-mesh-applied", "the new assembly has the requested mesh", case, observed=[d["zt"] for d in D])
+                oracle_mapping(ctx, case, S, D, 1e-11, False, False)
+                zb, zt, hh = geom(S)
+                dzb, dzt, dh = geom(D)
+                n = nucs[step % len(nucs)]
+                req.append(f"remapnd {zb} {zt} {hh} {ratlist([b['nd'][n] for b in S])} {dzb} {dzt} {dh}")
+                chk.append((dict(case, nuclide=n), [d["nd"][n] for d in D]))
+                req.append(f"remap int {zb} {zt} {hh} {optlist([b[INT_P] for b in S])} {dzb} {dzt} {dh}")
+                chk.append((dict(case, param=INT_P), [d[INT_P] for d in D]))
+                ctx.case(("repeated", a0.getType(), tuple(mesh), step, _), nontrivial=True)
+                src = new
+        except common.Infra:
+            raise
+        except Exception as e:  # noqa  (a value read from the real code could not be evaluated)
+            del req[len(chk):]
+            ctx.fail("remap-state-not-evaluable", "the mapped state can be read back and compared (numbers where "
+                     "numbers are expected)", {"assembly": a0.getType(), "mode": "repeated"}, observed=repr(e)[:300])
         ctx.count("repeated-application sequences (10-30 re-meshings each)")
     model = lean_run("Mesh", req)
     for (case, impl), line, rq in zip(chk, model, req):
@@ -499,6 +563,150 @@ def run_repeated(ctx):
             ok = len(m) == len(impl) and all(x != "_" and relclose(v, x, 1e-9) for x, v in zip(m, impl))
         if not ok:
             ctx.disagree("Model/Mesh.lean vs setAssemblyStateFromOverlaps (repeated application)",
+                         dict(case, request=rq[:400]), line[:400], str(impl)[:400])
+    ctx.evaluations += len(req)
+
+
+# --------------------------------------------------------------------------- stream A3: unset values x listing order
+POOL = (INT_P, INT_ARR, AVG_P, INT_G, PEAK_P, AVG_C)
+
+
+def expected_param(name, S, d, j=None):
+    """independent expectation of one mapped parameter on destination block d, ignoring unset (None) sources;
+    returns None when every overlapped source value is unset (the code then leaves the block alone)"""
+    H = d["zt"] - d["zb"]
+    acc, seen = 0.0, False
+    for s in S:
+        w = overlap(s["zb"], s["zt"], d["zb"], d["zt"])
+        if w <= 1e-9 * s["h"]:
+            continue
+        v = s[name]
+        if v is None:
+            continue
+        if j is not None:
+            v = v[j]
+        seen = True
+        if KIND[name] == "peak":
+            acc = max(acc, v)
+        elif KIND[name] == "int":
+            acc += v * w / s["h"]
+        else:
+            acc += v * w / H
+    return acc if seen else None
+
+
+def run_none_patterns(ctx):
+    """UNSET values in specific positions (first / middle / last overlapped source block, per parameter independently)
+    x lists of 2-4 mapped parameters in every listing order: each parameter receives its own mapped value."""
+    import itertools
+
+    from armi.reactor.converters import uniformMesh
+
+    fx = fixtures()
+    UM = uniformMesh.UniformMeshGeometryConverter
+    req, chk = [], []
+    combos = []
+    for k in (2, 3, 4):
+        subsets = list(itertools.combinations(POOL, k))
+        ctx.rng.shuffle(subsets)
+        for sub in subsets[:ctx.pick(6, len(subsets))]:
+            perms = list(itertools.permutations(sub))
+            ctx.rng.shuffle(perms)
+            combos += perms[:ctx.pick(6, 24)]
+    combos = [(INT_ARR, INT_P), (INT_P, INT_ARR), (INT_ARR, INT_P, AVG_P)] + combos
+    for cnum, names in enumerate(combos):
+        names = list(names)
+        a0 = ctx.rng.choice(fx["assems"])
+        H = a0.getTotalHeight()
+        pm = uniformMesh.ParamMapper([], names, a0[0])
+        assign_profiles(ctx.rng, a0, with_none=False)
+        srcmesh = [0.0] + [float(b.p.ztop) for b in a0]
+        # coarse target: every destination block overlaps >= 2 source blocks
+        inner, i = [], 0
+        while i + 2 < len(srcmesh) - 1:
+            i += ctx.rng.randint(2, 3)
+            if i < len(srcmesh) - 1:
+                inner.append(srcmesh[i] + ctx.rng.choice([0.0, 0.0, 0.5, -0.5, 2.0 ** -12]))
+        mesh = [0.0] + sorted(set(z for z in inner if 0.0 < z < H)) + [H]
+        blocks = list(a0)
+        groups = []   # indices of the source blocks overlapped by each destination cell
+        for lo, hi in zip(mesh, mesh[1:]):
+            groups.append([k for k, b in enumerate(blocks)
+                           if overlap(float(b.p.zbottom), float(b.p.ztop), lo, hi) > 1e-9 * b.getHeight()])
+        pattern = {}
+        for name in names:
+            pat = ctx.rng.choice(["first", "first", "middle", "last", "none", "first+last"])
+            if cnum < 3 and name == INT_ARR:
+                pat = "bottom"      # the first-listed parameter unset on the bottom block only
+                blocks[0].p[name] = None
+            pattern[name] = pat
+            for g in groups:
+                if len(g) < 2:
+                    continue
+                unset = []
+                if "first" in pat:
+                    unset.append(g[0])
+                if "last" in pat:
+                    unset.append(g[-1])
+                if pat == "middle" and len(g) >= 3:
+                    unset += g[1:-1]
+                for k in unset:
+                    blocks[k].p[name] = None
+        nucs = sorted(a0.getNuclides())[:1]
+        case = {"assembly": a0.getType(), "mode": "unset-patterns", "blockParamNames": names, "pattern": pattern,
+                "source_mesh": srcmesh, "target_mesh": mesh}
+        try:
+            S = snap(a0, nucs)
+            try:
+                new = UM.makeAssemWithUniformMesh(a0, mesh[1:], paramMapper=pm, mapNumberDensities=False)
+            except Exception as e:  # noqa
+                ctx.fail("remap-raises-on-valid-mesh", "re-meshing with unset parameter values succeeds", case,
+                         observed=repr(e)[:300])
+                continue
+            D = snap(new, nucs)
+            if not kinds_ok(ctx, case, D):
+                continue
+            zb, zt, hh = geom(S)
+            dzb, dzt, dh = geom(D)
+            for name in names:
+                idxs = [None] if name != INT_ARR else [0, 1, 2]
+                for j in idxs:
+                    for ib, d in enumerate(D):
+                        exp = expected_param(name, S, d, j)
+                        if exp is None:
+                            continue
+                        got = d[name] if j is None or d[name] is None else d[name][j]
+                        scale = max([abs(s[name] if j is None else s[name][j]) for s in S if s[name] is not None] + [1e-300])
+                        if got is None or not (fclose(got, exp, 1e-11) or abs(got - exp) <= 1e-11 * scale):
+                            ctx.fail("remap-unset-values-each-parameter-own-value", "with unset source values every mapped "
+                                     "parameter still receives its own overlap-weighted value",
+                                     dict(case, param=name, block=ib, index=j), observed=got, expected=exp)
+                    vals = [s[name] if (j is None or s[name] is None) else s[name][j] for s in S]
+                    dvals = [d[name] if (j is None or d[name] is None) else d[name][j] for d in D]
+                    req.append(f"remap {KIND[name]} {zb} {zt} {hh} {optlist(vals)} {dzb} {dzt} {dh}")
+                    chk.append((dict(case, param=name, index=j), dvals))
+            ctx.count("unset-pattern cases (per-parameter None positions x listing orders)")
+            ctx.case(("unset", a0.getType(), tuple(names), tuple(sorted(pattern.items())), tuple(mesh)), nontrivial=True,
+                     sample={"case": {k: v for k, v in case.items() if k != "source_mesh"}})
+        except common.Infra:
+            raise
+        except Exception as e:  # noqa
+            del req[len(chk):]
+            ctx.fail("remap-state-not-evaluable", "the mapped state can be read back and compared", case, observed=repr(e)[:300])
+    model = lean_run("Mesh", req)
+    for (case, impl), line, rq in zip(chk, model, req):
+        ok = line not in ("reject", "bad-op")
+        if ok:
+            m = common.parse_list(line)
+            ok = len(m) == len(impl)
+            if ok:
+                for x, v in zip(m, impl):
+                    if x == "_":
+                        continue           # every overlapped source unset: not written by the code
+                    if v is None or not relclose(v, x, 1e-9):
+                        ok = False
+        if not ok:
+            ctx.disagree("Model/Mesh.lean vs setAssemblyStateFromOverlaps (unset values x listing order)",
                          dict(case, request=rq[:400]), line[:400], str(impl)[:400])
     ctx.evaluations += len(req)
 
@@ -542,6 +750,8 @@ def run_near(ctx):
                      observed=repr(e)[:300])
             continue
         D = snap(new, nucs)
+        if not kinds_ok(ctx, case, D):
+            continue
         oracle_mapping(ctx, case, S, D, 1e-8, False, False, hyp_ok=False)
         ctx.count("near-coincident meshes (oracle only)")
         ctx.case(("near", a0.getType(), tuple(mesh)), nontrivial=True)
@@ -610,10 +820,13 @@ def filter_spec(pts, m, anchors, out):
 
 
 def call_filter(gen, pts, m, anchors, pref):
+    """list of floats, None (refused with ValueError), or a string describing any other outcome"""
     try:
-        return list(gen._filterMesh(list(pts), m, list(anchors), preference=pref))
+        return [float(x) for x in gen._filterMesh(list(pts), m, list(anchors), preference=pref)]
     except ValueError:
         return None
+    except Exception as e:  # noqa
+        return "raised " + repr(e)[:200]
 
 
 def run_filter(ctx):
@@ -631,7 +844,7 @@ def run_filter(ctx):
             out = call_filter(gen, pts, m, anchors, pref)
         case = {"points": pts, "min": m, "anchors": anchors, "preference": pref}
         req.append(f"filter {ratlist(pts)} {rat(m)} {ratlist(anchors)} {'T' if pref == 'top' else 'F'}")
-        impl.append("reject" if out is None else ratlist(out))
+        impl.append("reject" if out is None else (out if isinstance(out, str) else ratlist(out)))
         cases.append(case)
         oracle_filter(ctx, case, out)
         ctx.count("filterMesh refused" if out is None else "filterMesh ok")
@@ -693,6 +906,9 @@ def run_filter(ctx):
 
 def oracle_filter(ctx, case, out):
     pts, m, anchors = case["points"], case["min"], case["anchors"]
+    if isinstance(out, str):
+        ctx.fail("filtermesh-unexpected-exception", "filtering returns a mesh or refuses with ValueError", case, observed=out)
+        return
     if out is None:
         anc = sorted(set(a for a in anchors if a in pts))
         if not any(b - a < m for a, b in zip(anc, anc[1:])):
@@ -886,6 +1102,10 @@ def run_avg1d(ctx):
                 out = [float(v) for v in mathematics.average1DWithinTolerance(np.array(rows), tol)]
         except ValueError:
             out = None
+        except Exception as e:  # noqa
+            ctx.fail("average1d-unexpected-exception", "averaging returns a mesh or refuses with ValueError", case,
+                     observed=repr(e)[:200])
+            continue
         req.append("avg1d [" + ",".join(ratlist(r) for r in rows) + f"] {rat(tol)}")
         impl.append(out)
         cases.append(case)
@@ -920,12 +1140,15 @@ def run(ctx):
     run_filter(ctx)
     run_avg1d(ctx)
     run_assemblies(ctx)
+    run_none_patterns(ctx)
     run_repeated(ctx)
     run_near(ctx)
     ctx.rule = ("assembly stream: (fixture assembly type, source mesh, target mesh, profile mode) with target meshes "
                 "identical / finer / coarser / shifted / random on a 1/8 cm dyadic lattice, 'tiny' (points and cells 2^-10.."
                 "2^-22 cm beside source boundaries) and 'nearsame' (same point count, relative offsets 1e-6..1e-4), profiles "
-                "plain / with None / negative peaks / constant / exact zeros, chained 1-3 deep and mapped back; repeated "
+                "plain / with None / negative peaks / constant / exact zeros, chained 1-3 deep and mapped back; unset-value patterns "
+                "(first / middle / last overlapped source block unset, per parameter independently) x lists of 2-4 mapped "
+                "parameters in every listing order; repeated "
                 "application: 10-30 successive re-meshings of one state compared with the ORIGINAL totals after every "
                 "step; non-trivial = target mesh differs from the source mesh. Direct streams: distinct generated inputs "
                 "of _filterMesh (random and clustered candidates/anchors, corpus of hand-written cases, both preferences) "
